@@ -406,8 +406,17 @@ def beast_specs(rng, nframes, force_1a=True):
         ts = bytearray(rng.randbytes(6))
         sig = rng.choice((0, rng.randrange(256), rng.randrange(256)))
         if force_1a:
-            where = rng.choice(("ts", "sig", "msg", "last", "msg2", "none", "run"))
-            if where == "ts":
+            where = rng.choice(("ts", "sig", "msg", "last", "msg2", "none", "run", "heavy"))
+            if where == "heavy":
+                # worst-case wire length: most of timestamp, signal level and message bytes need escaping (up to 2+12+2+27 bytes)
+                ts = bytearray(b"\x1a" * 6) if rng.random() < 0.7 else ts
+                sig = 0x1A if rng.random() < 0.7 else sig
+                keep = rng.choice((0, 0, 1, 2, 4))
+                for j in range(1, len(b)):
+                    b[j] = 0x1A
+                for _ in range(keep):
+                    b[rng.randrange(1, len(b))] = rng.randrange(256)
+            elif where == "ts":
                 ts[rng.randrange(6)] = 0x1A
             elif where == "sig":
                 sig = 0x1A
